@@ -397,7 +397,8 @@ def curated_runs():
                     files={'beads1.fcs': dict(kind='beads', instrument='I1', seed=8), 'c1.fcs': cells(9)},
                     samples=[srow(1, 'absent.fcs', {'FL1-H': 'RFI'}, fault='missing'), srow(2, 'c1.fcs', {'FL1-H': 'MEF'}, beads='B2'),
                              srow(3, 'c1.fcs', {'FL1-H': 'MEF', 'FL3-H': 'au'}), srow(4, 'c1.fcs', {'FL1-H': 'furlongs'}, fault='units'),
-                             srow(5, 'c1.fcs', {'FL1-H': 'rfi'}, gate_fraction=1.5, fault='gate_fraction')],
+                             srow(5, 'c1.fcs', {'FL1-H': 'rfi'}, gate_fraction=1.5, fault='gate_fraction'),
+                             srow(6, 'c1.fcs', {}, beads=None)],            # no channel reported at all: a figure with one panel
                     np_seed=4, plot=True, hist=False, default_out=False))
     # eleven reported fluorescence channels in one sample row, plots on (more histograms than default colours)
     fl11 = ['FL%d-A' % i for i in range(1, 12)]
@@ -411,10 +412,10 @@ def curated_runs():
     # their channels differently, plots on, calibration requested
     i2 = dict(id=2, fsc='FSC-A', ssc='SSC-A', fl=['GFP', 'mCherry'], time='TIME')
     i1n = dict(i1, id=1)
-    out.append(dict(arm='run', instruments=[i1n, i2], beads=[dict(b1, id=1, instrument=1), dict(b1, id=2, instrument=2, file='beads2.fcs', clustering=['GFP'], mef={'GFP': lad})],
+    out.append(dict(arm='run', instruments=[i1n, i2], beads=[dict(b1, id=0, instrument=1), dict(b1, id=2, instrument=2, file='beads2.fcs', clustering=['GFP'], mef={'GFP': lad})],
                     files={'beads1.fcs': dict(kind='beads', instrument=1, seed=13), 'beads2.fcs': dict(kind='beads', instrument=2, seed=14),
                            'c1.fcs': dict(cells(15), instrument=1), 'c2.fcs': dict(cells(16), instrument=2)},
-                    samples=[dict(srow(1, 'c1.fcs', {'FL1-H': 'MEF', 'FL2-H': 'RFI'}), id=101, instrument=1, beads=1),
+                    samples=[dict(srow(1, 'c1.fcs', {'FL1-H': 'MEF', 'FL2-H': 'RFI'}), id=101, instrument=1, beads=0),      # (an identifier may be 0)
                              dict(srow(2, 'c2.fcs', {'GFP': 'MEF'}), id=102, instrument=2, beads=2),
                              dict(srow(3, 'c2.fcs', {'mCherry': 'a.u.'}), id=103, instrument=2, beads=None)],
                     np_seed=6, plot=True, hist=True, default_out=False))
